@@ -7,6 +7,10 @@ import FastorModel.Props.C03
 import FastorModel.Props.C05
 import FastorModel.Props.C06
 import FastorModel.Props.C14
+import FastorModel.Props.C04
+import FastorModel.Props.C16
+import FastorModel.Props.C19
+import FastorModel.Props.C20
 import FastorModel.Model.Inverse
 import FastorModel.Props.C17
 /-
@@ -885,5 +889,139 @@ theorem inverse_leaf_reads_in_operand (n : Nat) (hn : 1 ≤ n ∧ n ≤ 4) (s s'
       e12, e13, e14, e15]
 
 end InvLeaf
+
+
+/-! ## the `*_footprint` family for the models merged in round 3 (C04 views, C16 reductions, C19 index views, C20 layout) -/
+
+/-- **range views, every evaluator of the flat scalar route** (C04 model, all six view classes and ranks): when the slice
+    selects elements of the parent (`first_k + j_k*step_k < pdims_k` for the in-range multi-index `j`), the parent offset
+    `eval_s` reads is inside the parent tensor -/
+theorem views_read_footprint (v : Views.View) (hwf : v.WF) (j : List Nat) (hj : Views.InRange (Views.vdims v.axs) j)
+    (hsel : Views.InRange v.pdims (List.zipWith (fun (a : Views.Ax) i => a.first + i * a.step) v.axs j)) :
+    v.evalS (Views.rowMajor (Views.vdims v.axs) j) < Views.lprod v.pdims := by
+  rw [C04.read_correct v hwf j hj]
+  exact Views.rowMajor_lt hsel
+
+/-- … and the vector route reads, lane by lane, what the scalar route reads at `idx + l`: the gather routes touch exactly
+    the selected offsets -/
+theorem views_gather_footprint (v : Views.View) (hwf : v.WF) (V idx l : Nat) (hl : l < V) :
+    (v.evalV V idx)[l]? = some (v.evalS (idx + l)) := C04.evalV_lanes v hwf V idx l hl
+
+/-- **reductions** (C16 model: unroll ladder of vector stages + scalar tail, every width and admissible ladder): the
+    positions read are exactly `0 … n-1`; in particular every read is inside the operand -/
+theorem reduce_footprint (n V : Nat) (us : List Nat) (hn : n < 2 ^ 64) (hg : Reduce.GoodLadder V us) (p : Nat)
+    (hp : p ∈ Reduce.flat V (Reduce.vecSteps n V us) ++ Reduce.tailPos n V us) : p < n := by
+  rw [C16.positions_exactly_once n V us hn hg] at hp
+  exact List.mem_range.1 hp
+
+/-- **index-tensor views** (C19 model): the lanes gathered at `i` are `it (i+l)`; with in-range indices
+    (`it j < N` for `j < n`) and `i + V ≤ n` every gathered offset is inside the parent of `N` elements -/
+theorem random_view_footprint (it : Nat → Nat) (n N V i : Nat) (hin : ∀ j, j < n → it j < N) (hi : i + V ≤ n)
+    (x : Nat) (hx : x ∈ RandomViews.laneInds it V i) : x < N := by
+  unfold RandomViews.laneInds at hx
+  obtain ⟨j, hj, rfl⟩ := List.mem_map.1 hx
+  obtain ⟨t, rfl, hlt⟩ := (mem_forRange (by omega : 0 < 1)).1 hj
+  exact hin _ (by omega)
+
+/-- **layout converters** (C20 model): row-major and column-major offsets of a multi-index of the shape are inside the
+    `prod dims` elements of the tensor -/
+theorem layout_footprint (ds is : List Nat) (h : Layout.Box ds is) :
+    Layout.rowFlat ds is < Layout.prod ds ∧ Layout.colFlat ds is < Layout.prod ds :=
+  ⟨Layout.rowFlat_lt h, Layout.colFlat_lt h⟩
+
+
+/-- **`permute`, read side**: every source offset a move reads is inside the operand of `prod dims` elements — the C++14
+    body (forward map on the output side: the source index is the loop multi-index itself) and the C++17 body (reverse map
+    on the input side: the source multi-index is the loop index gathered through `permute_mapped_index`) -/
+theorem permute_reads_in_operand (s : Permute.Std) (v : Permute.Variant) (p dims : List Nat) (hne : dims ≠ [])
+    (hpos : ∀ d ∈ dims, 0 < d) (hp : p.Perm (List.range dims.length)) (m : Permute.Move)
+    (hm : m ∈ Permute.permuteMoves s v p dims) : m.src < Permute.prod dims := by
+  have hr : 0 < dims.length := List.length_pos_iff.2 hne
+  cases s with
+  | cxx14 =>
+    simp only [Permute.permuteMoves, Permute.forwardMoves, List.mem_map] at hm
+    obtain ⟨as, has, rfl⟩ := hm
+    have hbox := (Permute.loopStates_mem v dims as hpos).1 has
+    have hlen := hbox.length_eq
+    simp only
+    rw [Permute.codeIndex_eq_flat dims (List.range dims.length) as dims.length hne (by simp) (Or.inr rfl)]
+    have hg : Permute.gather (List.range dims.length) as = as := by rw [← hlen]; exact Permute.gather_range as
+    rw [hg]; exact Permute.flat_lt hbox
+  | cxx17 =>
+    have hinv := Permute.isInv_mappedIndex hr hp
+    have hd := Permute.newDims_eq hp dims
+    simp only [Permute.permuteMoves, Permute.reverseMoves, List.mem_map] at hm
+    obtain ⟨as, has, rfl⟩ := hm
+    rw [hd] at has
+    have hposg : ∀ d ∈ Permute.gather p dims, 0 < d := C14.gather_pos hinv hpos
+    have hbox := (Permute.loopStates_mem v (Permute.gather p dims) as hposg).1 has
+    simp only
+    rw [Permute.codeIndex_eq_flat dims (Permute.mappedIndex p) as dims.length hne hinv.lrev (Or.inr rfl)]
+    have hb2 := Permute.gather_inBox hinv.symm (dims := Permute.gather p dims) (as := as)
+      (by rw [Permute.gather_length]; exact hinv.lmi) hbox
+    rw [Permute.gather_gather hinv dims rfl] at hb2
+    exact Permute.flat_lt hb2
+
+
+/-- a multi-index of the slice "selects an element of the parent": every `first_k + j_k*step_k` is below the parent extent -/
+def Selects (v : Views.View) (j : List Nat) : Prop :=
+  Views.InRange v.pdims (List.zipWith (fun (a : Views.Ax) i => a.first + i * a.step) v.axs j)
+
+/-- **`teval_s(as)`** (the multi-index evaluator of every view class and rank) reads inside the parent -/
+theorem views_teval_footprint (v : Views.View) (hwf : v.WF) (as : List Nat) (hl : v.axs.length = as.length)
+    (hsel : Selects v as) : v.tevalS as < Views.lprod v.pdims := by
+  rw [C04.tevalS_correct v hwf as hl]; exact Views.rowMajor_lt hsel
+
+/-- **`teval(as)`, per-lane gather route** (last extent not a multiple of the width — the route that walks into the
+    following rows): every lane that belongs to the slice (`rowMajor as + l < size`) reads the parent offset of an in-range
+    multi-index of the slice, hence — when the slice selects elements of the parent — an offset inside the parent -/
+theorem views_teval_gather_footprint (v : Views.View) (hwf : v.WF) (V : Nat) (as : List Nat) (hne : v.axs ≠ [])
+    (has : Views.InRange (Views.vdims v.axs) as) (l : Nat) (hlV : l < V) (hr : v.route V = .gather)
+    (hfit : Views.rowMajor (Views.vdims v.axs) as + l < v.size)
+    (hsel : ∀ j, Views.InRange (Views.vdims v.axs) j → Selects v j) :
+    ∃ x, (v.tevalV V as)[l]? = some x ∧ x < Views.lprod v.pdims := by
+  obtain ⟨j, hj, _, hx⟩ := C04.tevalV_gather_route v hwf V as hne has l hlV hr hfit
+  exact ⟨_, hx, Views.rowMajor_lt (hsel j hj)⟩
+
+/-- **two-index evaluators of the 2-D views** (`eval_s(i,j)`, and lane `l` of `eval(i,j)` on both routes) -/
+theorem views_eval2_footprint (cls : Views.Cls) (h2 : Views.is2D cls) (m n : Nat) (a0 a1 : Views.Ax) (V i j l : Nat) (hl : l < V)
+    (hsel : Selects (Views.View.mk cls [m, n] [a0, a1]) [i, j + l]) :
+    ∃ x, ((Views.View.mk cls [m, n] [a0, a1]).eval2V V i j).2[l]? = some x ∧ x < Views.lprod [m, n] := by
+  obtain ⟨_, h, _⟩ := C04.eval2_correct cls h2 m n a0 a1 V i j l hl
+  exact ⟨_, h, Views.rowMajor_lt hsel⟩
+
+
+/-- **consumer loop `trivial_assign`** (tensor constructed from / compound-assigned with a view, every size and width):
+    every store goes to a position below `size()` of the result -/
+theorem views_consumer_footprint (v : Views.View) (hwf : v.WF) (V : Nat) (hV : 0 < V) (w : Nat × Nat)
+    (hw : w ∈ v.trivialWrites V) : w.1 < v.size := by
+  by_contra h
+  have hnone := ((C04.trivial_assign_correct v hwf V hV) w.1).2 h
+  exact (lastWrite_none_iff _ _).1 hnone w hw rfl
+
+
+/-- **reshape / flatten / squeeze maps** (C20 model: views of the same base pointer): an element accessed through the
+    reshaped map with an index of the NEW shape lies inside the wrapped extent `[base, base + prod dims)` of the original —
+    given the `static_assert` of `reshape` (equal products); `flatten` and `squeeze` are instances -/
+theorem map_reshape_footprint (v : MapAlias.View) (shapes idx : List Nat) (hprod : Layout.prod shapes = Layout.prod v.dims)
+    (hidx : Layout.Box shapes idx) :
+    (MapAlias.reshape v shapes).base + Layout.flatIndex (MapAlias.reshape v shapes).dims idx < v.base + Layout.prod v.dims := by
+  unfold MapAlias.reshape
+  simp only
+  rw [C20.flatIndex_rowmajor shapes idx hidx.length_eq]
+  have := Layout.rowFlat_lt hidx
+  unfold Layout.rowOffset
+  omega
+
+theorem map_flatten_squeeze_footprint (v : MapAlias.View) :
+    (∀ idx, Layout.Box (MapAlias.flatten v).dims idx →
+      (MapAlias.flatten v).base + Layout.flatIndex (MapAlias.flatten v).dims idx < v.base + Layout.prod v.dims) ∧
+    (∀ idx, Layout.Box (MapAlias.squeeze v).dims idx →
+      (MapAlias.squeeze v).base + Layout.flatIndex (MapAlias.squeeze v).dims idx < v.base + Layout.prod v.dims) := by
+  constructor
+  · intro idx h
+    exact map_reshape_footprint v [Layout.prod v.dims] idx (by simp [Layout.prod]) h
+  · intro idx h
+    exact map_reshape_footprint v (v.dims.filter (· != 1)) idx (C20.prod_filter_ne_one v.dims) h
 
 end Fastor.C07
